@@ -260,3 +260,75 @@ def compare(ctx, res, n_trees, tag):
                 shutil.rmtree(os.environ["VERIF_KEEP_FAIL"], ignore_errors=True)
                 shutil.copytree(st.tree.root, os.environ["VERIF_KEEP_FAIL"], symlinks=True)
             st.close()
+
+
+def compare_answers(ctx, res, n_trees, tag):
+    """Model/Serve.answer (request line -> whole response) vs the real server, byte for byte: Gopher, Gopher+ (+ ! $), Gemini,
+    Spartan for every query selector; HTTP documents and not-found pages.  Time stamps are removed on the real side."""
+    import re as _re
+    from props.c02 import readlines
+    rng = ctx.rng
+    for ti in range(n_trees):
+        st = SiteTree(rng)
+        try:
+            chain = rng.choice(sorted(CHAINS))
+            hl, umn, gm = CHAINS[chain]
+            cfg = pyg.make_config(st.tree.root, hl, **{"handlers.dir.DirHandler|cachetime": "0"})
+            shipped = [s_.strip() for s_ in cfg.get("protocols.ProtocolMultiplexer", "protocols").strip()[1:-1].split(",")]
+            g, t, s_tab = st.tables(cfg)
+            foot = {}
+            for k_, sec in (("gemini", "protocols.gemini.GeminiProtocol"), ("spartan", "protocols.gemini.SpartanProtocol")):
+                foot[k_] = cfg.get(sec, "footer") if cfg.has_option(sec, "footer") else None
+            reqlist = []
+            for q in st.queries(6):
+                try:
+                    q.encode("utf-8", "surrogateescape")
+                except UnicodeEncodeError:
+                    continue
+                for p, gp in (("gopher", "+"), ("gopherp", "+"), ("gopherp", "!"), ("gopherp", "$"), ("gemini", "+"), ("spartan", "+"), ("http", "+")):
+                    if rng.random() < 0.5:
+                        continue
+                    rq = reqs.build(p, q, gplus=gp)
+                    i = rq.find(b"\n")
+                    line, rest = rq[:i + 1], rq[i + 1:]
+                    if b"\n" in line[:-1] or b" " in rq.split(b"\r\n")[0] and p in ("gemini",):
+                        pass
+                    reqlist.append((p, gp, q, rq, line, rest))
+            enc = []
+            for p, gp, q, rq, line, rest in reqlist:
+                rl = [x.decode("utf-8", "surrogateescape") for x in readlines(rest)] if p != "spartan" else [rest.decode("utf-8", "surrogateescape")]
+                enc.append(";".join(["T" if reqs.TLS[p] else "F", enc_str(line.decode("utf-8", "surrogateescape")), enc_list(rl)]))
+            if not enc:
+                continue
+            linem = "\t".join(["answer", "T" if umn else "F", "T" if gm else "F", enc_str(listing.SRV[0]), str(listing.SRV[1]),
+                               "T" if cfg.getboolean("pygopherd", "abstract_headers") else "F", enc_str(cfg.get("pygopherd", "abstract_entries")),
+                               enc_opt(foot["gemini"]), enc_opt(foot["spartan"]), enc_list(shipped), st.encode(), g, t, s_tab, " ".join(enc)])
+            out = ctx.driver.run([linem])[0]
+            if out in ("REGEX-UNSUPPORTED", "bad-op"):
+                res.degraded.append("serve model: " + out)
+                return
+            for (p, gp, q, rq, line, rest), o in zip(reqlist, out.split(" ")):
+                r = pyg.request(rq, cfg, tls=reqs.TLS[p])
+                res.evaluations += 1
+                real = r.out or b""
+                real = _re.sub(rb" Mod-Date: [^\r\n]*\r\n", b"", real)
+                real = _re.sub(rb"Last-Modified: [^\r\n]*\r\n", b"", real)
+                inp = {"chain": chain, "protocol": p, "gplus": gp, "selector": q, "request": rq[:120], "tree_seed": f"{ctx.pid}:{ctx.seed}:a{ti}"}
+                res.count(f"answer:{p}{gp if p == 'gopherp' else ''}:{'modelled' if o not in ('NONE',) else 'unmodelled'}")
+                if o == "NONE":
+                    continue        # outside the end-to-end model (HTTP/WAP directory pages, content the code crashes on)
+                errors = "backslashreplace" if p in ("gemini", "spartan") else "surrogateescape"
+                model = b""
+                if o != "EMPTY":
+                    for piece in o.split(";"):
+                        if piece.startswith("T:"):
+                            model += dec_str(piece[2:]).encode("utf-8", errors)
+                        else:
+                            model += dec_str(piece[2:]).encode("latin-1")
+                res.nontrivial.add(("answer", ti, p, gp, q))
+                if model != real:
+                    k = next((i_ for i_, (x, y) in enumerate(zip(model, real)) if x != y), min(len(model), len(real)))
+                    res.disagree(tag + ".serve-answer", inp, {"at": k, "model": model[max(0, k - 40):k + 80], "len": len(model)},
+                                 {"real": real[max(0, k - 40):k + 80], "len": len(real), "exc": repr(r.exc)})
+        finally:
+            st.close()
